@@ -56,6 +56,12 @@ def make_request(rng: random.Random, case: Dict[str, Any], hp: bytes) -> G.Msg:
             more.append((rng.choice([b'X-Blocked', b'x-blocked']), b'secret'))
         if rng.random() < 0.5:
             more.append((b'Cookie', b'a=b'))
+    if rng.random() < 0.06:
+        # a Connection field that names another field of this request next to keep-alive: both are forwarded as sent, and
+        # naming a field here must not make it disappear from this or any later request
+        named = rng.choice([b'Accept', b'Authorization', b'X-Req-Id', b'User-Agent', b'X-Trace', b'Referer'])
+        more.append((rng.choice([b'Connection', b'connection']), rng.choice([b'keep-alive, ', b'Keep-Alive,']) + named))
+        more.append((named, b'named-by-connection'))
     framing = {'none': 'none', 'cl': 'cl', 'cl0': 'cl'}.get(fr, 'chunked')
     size = case['size']
     body = None
